@@ -94,7 +94,10 @@ def gen_avel_replay(ctx):
         steps = []
         for ln in p.stdout.split('\n'):
             if ln.startswith('"{'):
-                steps.append(json.loads(json.loads(ln)))
+                st = json.loads(json.loads(ln))
+                if steps and st == steps[-1]:
+                    continue        # TLC generated the same successor twice (a disjunction evaluated as two branches)
+                steps.append(st)
         if not steps or 'rror' in p.stdout.replace('CHECK_DEADLOCK', ''):
             if not steps or 'Error' in p.stdout:
                 raise tlc.TLCError('Gen_Avel produced no behaviours for %s:\n%s' % (name, p.stdout[-2000:]))
@@ -138,6 +141,10 @@ def gen_avel_replay(ctx):
                 line, exp = 'load %s %d %d' % (dst, a[0], a[1]), st['V'][dst]
             elif fam == 'store':
                 line, exp = 'store %s %d %d' % (a[0], dst[0], dst[1]), st['mem']
+            elif fam == 'gather':
+                line, exp = 'gather %s %d %s %d' % (dst, a[0], a[1], a[2]), st['V'][dst]
+            elif fam == 'scatter':
+                line, exp = 'scatter %s %d %s %d' % (a[0], dst[0], a[1], dst[1]), st['mem']
             elif fam == 'setenv':
                 line, exp = 'setenv %s' % a[0], []
             else:
@@ -176,7 +183,7 @@ def gen_avel_replay(ctx):
             bad = 0
             for i, (st, e) in enumerate(zip(steps, evs)):
                 fam, dst = st['fam'], st['dst']
-                if fam == 'store':
+                if fam in ('store', 'scatter'):
                     ok = e.get('mem') == st['mem']
                 elif fam == 'setenv':
                     ok = True
@@ -190,7 +197,7 @@ def gen_avel_replay(ctx):
                     bad += 1
                     if bad <= 3:
                         ev = dict(e)
-                        ev.update({'o': st['op'], 'k': 'g', 'step': i + 1, 'spec_post': st['mem'] if fam == 'store' else (st['V'].get(dst) or st['K'].get(dst)),
+                        ev.update({'o': st['op'], 'k': 'g', 'step': i + 1, 'spec_post': st['mem'] if fam in ('store', 'scatter') else (st['V'].get(dst) or st['K'].get(dst)),
                                    'spec_env': st['env'], 'args': st['args']})
                         ctx.classify(ev, [(tag, '%s:%d:replay_%s' % (name, i + 1, fam))])
             if not bad:
